@@ -66,7 +66,12 @@ def quadratic_spline(
     min_bin_width=DEFAULT_MIN_BIN_WIDTH,
     min_bin_height=DEFAULT_MIN_BIN_HEIGHT,
 ):
-    if torch.min(inputs) < left or torch.max(inputs) > right:
+    # The inverse takes its inputs from the output interval [bottom, top].
+    if inverse:
+        lower, upper = bottom, top
+    else:
+        lower, upper = left, right
+    if torch.min(inputs) < lower or torch.max(inputs) > upper:
         raise InputOutsideDomain()
 
     if inverse:
